@@ -1,4 +1,5 @@
 import SaModel.Props.C07
+import SaModel.Lemmas.C06Stable
 /-
 C06 — a schema traced from samples accepts those same samples.
 Model: SaModel/Trace/{Tracer,FromSamples,Leaf}.lean; the builder model is written separately, so the last step of the
@@ -9,14 +10,21 @@ Acceptance at a leaf position: `AccLeaf o r a` — the state `r` has absorbed th
 length over the complete leaf alphabet and every option setting: `leaf_absorb_acc` (every sample is accepted by the state
 it was traced into), `leaf_acc_mono` (absorbing more keeps acceptance: coercions only widen), `leaf_null_acc` /
 `leaf_null_mono` (a `None` / unit sample makes the position nullable and it stays nullable).
-Tree level: `Acc` (absorbing the sample again leaves the traced field unchanged), checked by kernel evaluation on a zoo
-of nested collections (`acc_on_zoo`: absorb_acc + acc_mono for missing fields, varying key sets, partially seen
-variants, nested options, empty lists, tuples of different arity); the general induction is `absorb_acc_partial`.
+Tree level: `Acc c o t x` (absorbing the sample again leaves the traced field unchanged) and its inductive strengthening
+`AccS c o t x` (`t` is well formed and EVERY tracer reachable from `t` by absorbing further samples absorbs `x` again
+with no change except the struct sample counters; `AccS_Acc : AccS → Acc`).  Proved by induction over nested samples,
+for every sample constructor (leaves, `None`/`Some`, newtype structs, sequences, tuples and tuple structs, structs, maps
+in both modes, raw key/value streams, the four variant kinds), every option setting and both codes (repaired, pinned):
+`absorb_acc` (a sample is stably accepted by the tracer it was absorbed into), `acc_mono` (acceptance survives any
+further successful absorption), `fromSamples_acc` (after `from_samples` every sample of the collection is accepted by
+the final tracer).  The only hypothesis is the reachable-state invariant `WF` of the start tracer (`WF_new`: a fresh
+tracer has it; `absorb_acc_needs_wf`: the law is false for an ill-formed tracer).  Lemmas: SaModel/Lemmas/C06*.lean.
+`acc_on_zoo` evaluates the same statement on a zoo of nested collections.
 `C06_closure_partial` is the final step with the builder as a hypothesis.  `C06_tuple_arity[_pinned]` are the repaired /
 pinned witnesses of finding #25.
 -/
 namespace SaModel.Props.C06
-open SaModel SaModel.Trace SaModel.Lemmas.C07 SaModel.Props.C07
+open SaModel SaModel.Trace SaModel.Lemmas.C07 SaModel.Props.C07 SaModel.Lemmas.C06
 
 /-! ### leaf positions -/
 
@@ -111,19 +119,111 @@ accepted by the resulting tracer, under each option setting -/
 theorem acc_on_zoo : zooOptions.all (fun o => zooCollections.all fun xs => closedB .fixed o xs) = true := by
   decide +kernel
 
-/-- the general tree-level statements, for reference:
-`absorb_acc : absorb c o t x = ok t' → Acc c o t' x` and `acc_mono : Acc c o t x → absorb c o t y = ok t' → Acc c o t' x`.
-Proved here for the top-level constructor cases that need no induction: a `None` sample is accepted by whatever it was
-absorbed into (`mark_nullable` is idempotent and does not touch the children).
-Missing: the induction over nested samples (struct fields with the `seen_samples` bookkeeping, list items, map entries,
-tuple positions, union variants). -/
-theorem absorb_acc_partial (c : Code) (o : Options) (t t' : Tracer) (h : absorb c o t .none = .ok t') :
-    Acc c o t' .none := by
-  simp only [absorb] at h
-  cases h
-  refine ⟨t.mark_nullable, ?_, rfl⟩
-  simp only [absorb]
-  cases t <;> rfl
+/-! ### the tree-level laws, by induction over nested samples (`SaModel/Lemmas/C06Stable.lean`) -/
+
+/-- `AccS c o t x` (stable acceptance, the inductive strengthening of `Acc`): `t` satisfies the reachable-state invariant
+and every tracer reachable from `t` by absorbing further samples absorbs `x` once more with no change except the sample
+counters of struct nodes (`erase` forgets `seen_samples` / `last_seen_in_sample`) -/
+def AccS (c : Code) (o : Options) (t : Tracer) (x : SVal) : Prop :=
+  WF o t ∧ ∀ t2, Steps c o t t2 → ∃ t3, absorb c o t2 x = .ok t3 ∧ erase t3 = erase t2
+
+/-- stable acceptance implies acceptance: absorbing `x` again leaves the traced field unchanged -/
+theorem AccS_Acc {c : Code} {o : Options} {t : Tracer} {x : SVal} (h : AccS c o t x) : Acc c o t x := by
+  obtain ⟨t3, h1, h2⟩ := h.2 t (Steps.refl c o t)
+  exact ⟨t3, h1, to_field_of_erase_eq o h2⟩
+
+/-- `absorb_acc`: whatever sample was absorbed into a (well-formed) tracer is stably accepted by the result.
+All sample constructors, all options, both codes. -/
+theorem absorb_acc (c : Code) (o : Options) {t t' : Tracer} {x : SVal} (hw : WF o t) (h : absorb c o t x = .ok t') :
+    AccS c o t' x :=
+  ⟨absorb_wf c o x t t' hw h, fun t2 hs => absorb_stable c o x t t' hw h t2 (hs.wf (absorb_wf c o x t t' hw h)) hs⟩
+
+/-- acceptance survives every chain of further absorptions -/
+theorem AccS_steps {c : Code} {o : Options} {t t' : Tracer} {x : SVal} (h : AccS c o t x) (hs : Steps c o t t') :
+    AccS c o t' x :=
+  ⟨hs.wf h.1, fun t2 hs2 => h.2 t2 (hs.trans hs2)⟩
+
+/-- `acc_mono`: absorbing one more sample keeps everything accepted so far accepted (nullable is sticky, coercions only
+widen, fields only appear, `Unknown` only upgrades) -/
+theorem acc_mono {c : Code} {o : Options} {t t' : Tracer} {x y : SVal} (h : AccS c o t x)
+    (hy : absorb c o t y = .ok t') : AccS c o t' x :=
+  AccS_steps h (Steps.single hy)
+
+theorem absorbAll_acc (c : Code) (o : Options) : ∀ (xs : List SVal) (t0 t : Tracer), WF o t0 →
+    absorbAll c o t0 xs = .ok t → ∀ x ∈ xs, AccS c o t x
+  | [], _, _, _, _ => by simp
+  | y :: ys, t0, t, hw, h => by
+    rw [absorbAll_cons] at h
+    cases ha : absorb c o t0 y with
+    | error e => rw [ha] at h; cases h
+    | ok t1 =>
+      rw [ha] at h
+      intro x hx
+      rcases List.mem_cons.mp hx with rfl | hx
+      · exact AccS_steps (absorb_acc c o hw ha) ⟨ys, h⟩
+      · exact absorbAll_acc c o ys t1 t (absorb_wf c o y t0 t1 hw ha) h x hx
+
+theorem fromSamplesTracer_absorbAll {c : Code} {o : Options} {xs : List SVal} {t : Tracer}
+    (h : fromSamplesTracer c o xs = .ok t) : absorbAll c o (Tracer.new "$" "$") xs = .ok t := by
+  unfold fromSamplesTracer at h
+  cases ha : absorbAll c o (Tracer.new "$" "$") xs with
+  | error e => rw [ha] at h; cases h
+  | ok t0 =>
+    rw [ha] at h
+    simp only [Tracer.finish, bind, Except.bind] at h
+    cases hc : t0.check o with
+    | error e => rw [hc] at h; cases h
+    | ok u => rw [hc] at h; cases h; rfl
+
+/-- `fromSamples_acc`: when `from_samples` succeeds, every sample of the collection is (stably) accepted by the final
+tracer — law 1 and law 2 together, for sample collections of any length and nesting -/
+theorem fromSamples_acc (c : Code) (o : Options) (xs : List SVal) (t : Tracer)
+    (h : fromSamplesTracer c o xs = .ok t) : ∀ x ∈ xs, AccS c o t x :=
+  absorbAll_acc c o xs _ t (WF_new o _ _) (fromSamplesTracer_absorbAll h)
+
+theorem fromSamples_Acc (c : Code) (o : Options) (xs : List SVal) (t : Tracer)
+    (h : fromSamplesTracer c o xs = .ok t) : ∀ x ∈ xs, Acc c o t x :=
+  fun x hx => AccS_Acc (fromSamples_acc c o xs t h x hx)
+
+/-- a nested sample: struct with a list of options, a map, a tuple, a tuple variant and a struct variant -/
+def wNested : SVal :=
+  recOf [("l", seqOf [.none, .some (i32 1)]), ("m", mapOf [("k", .str "v")]), ("t", tupOf [i32 1, .bool true]),
+    ("e", .tupleVariant "E" 1 "B" (.cons (i32 1) .nil)), ("s", .structVariant "F" 0 "A" (.cons "x" 0 (.f64 0) .nil))]
+
+set_option maxRecDepth 100000 in
+/-- non-vacuity of `absorb_acc`: the nested sample is absorbed by a fresh tracer, hence stably accepted by the result -/
+example : (absorb .fixed {} (Tracer.new "$" "$") wNested).isOk = true ∧
+    ∀ t', absorb .fixed {} (Tracer.new "$" "$") wNested = .ok t' → AccS .fixed {} t' wNested :=
+  ⟨by decide +kernel, fun _ h => absorb_acc .fixed {} (WF_new _ _ _) h⟩
+
+set_option maxRecDepth 100000 in
+/-- non-vacuity of `acc_mono`: a second, different sample (missing fields, another variant) is absorbed after the first -/
+example : (absorbAll .fixed {} (Tracer.new "$" "$") [wNested, recOf [("l", seqOf []), ("e", .unitVariant "E" 0 "A")]]).isOk
+      = true ∧
+    ∀ t1 t2, absorb .fixed {} (Tracer.new "$" "$") wNested = .ok t1 →
+      absorb .fixed {} t1 (recOf [("l", seqOf []), ("e", .unitVariant "E" 0 "A")]) = .ok t2 →
+      AccS .fixed {} t2 wNested :=
+  ⟨by decide +kernel, fun _ _ h1 h2 => acc_mono (absorb_acc .fixed {} (WF_new _ _ _) h1) h2⟩
+
+set_option maxRecDepth 100000 in
+/-- non-vacuity of `fromSamples_acc`: a collection with fields missing in some samples traces successfully -/
+example : (fromSamplesTracer .fixed { allow_null_fields := true }
+      [recOf [("a", i32 1)], recOf [("a", .none), ("b", seqOf [])], recOf []]).isOk = true := by decide +kernel
+
+/-- an ill-formed tracer: two fields of the same name whose counters equal `seen_samples` (unreachable: names are unique
+and `StructTracer::end` leaves every counter below `seen_samples`) -/
+def wIllFormed : Tracer :=
+  .struct "$" "$" false
+    (.cons "a" 5 (.primitive "a" "$.a" false .int32 none) (.cons "a" 5 (.primitive "a" "$.a" false .int32 none) .nil))
+    .struct 5
+
+set_option maxRecDepth 100000 in
+/-- the hypothesis `WF` of `absorb_acc` cannot be dropped: from the ill-formed tracer the sample is absorbed, but
+absorbing it again makes the shadowed second field nullable -/
+theorem absorb_acc_needs_wf :
+    (match absorb .fixed {} wIllFormed (recOf [("a", i32 1)]) with
+     | .ok t' => AccB .fixed {} t' (recOf [("a", i32 1)])
+     | .error _ => true) = false := by decide +kernel
 
 /-! ### the link to the builder, against an abstract acceptance interface -/
 
@@ -136,20 +236,35 @@ structure BuilderInterface where
 only look like dates under `guess_dates`, unsigned values above `i64::MAX` mixed with signed ones) -/
 abbrev Excluded := Field → SVal → Prop
 
-/-- `C06_closure_partial`: IF (i) every sample is accepted by the final tracer (`absorb_acc` + `acc_mono`: proved at
-leaf positions for all inputs, on the zoo for nested shapes) and (ii) the builder takes, for the field of a tracer,
-every non-excluded sample that tracer accepts (the builder-side obligation `Acc → push succeeds and decodes to x`), THEN
-tracing succeeds ⇒ the traced root field accepts every sample.
-Missing: (i) for arbitrary nested samples and (ii) — the refinement theorem of the builder model; the correspondence
-suite found four cells where (ii) is false on the current tree (known findings C06-char-into-float,
-C06-to-string-into-dictionary, C06-unseen-first-variant-default, C06-data-less-newtype-variant-as-string). -/
+/-- `C06_closure_partial`: IF the builder takes, for the field of a tracer, every non-excluded sample that tracer stably
+accepts (the builder-side obligation `AccS → push succeeds and decodes to x`; `AccS` implies `Acc`: `AccS_Acc`), THEN
+tracing succeeds ⇒ the traced root field accepts every sample.  The tracer side (every sample of the collection is
+stably accepted by the final tracer) is `fromSamples_acc`, no longer a hypothesis.
+Missing: the builder obligation `hbuilder` — the refinement theorem of the builder model (C01/C05); the correspondence
+suite found cells where it is false on the pinned tree (known findings C06-char-into-float,
+C06-to-string-into-dictionary: repaired; C06-unseen-first-variant-default, C06-data-less-newtype-variant-as-string:
+open). -/
 theorem C06_closure_partial (B : BuilderInterface) (excl : Excluded) (c : Code) (o : Options) (xs : List SVal)
     (t : Tracer) (f : Field)
-    (hacc : ∀ x ∈ xs, Acc c o t x)
-    (hbuilder : ∀ x, Acc c o t x → t.to_field o = .ok f → ¬ excl f x → B.accepts f x)
-    (_htrace : fromSamplesTracer c o xs = .ok t) (hf : t.to_field o = .ok f) :
+    (hbuilder : ∀ x, AccS c o t x → t.to_field o = .ok f → ¬ excl f x → B.accepts f x)
+    (htrace : fromSamplesTracer c o xs = .ok t) (hf : t.to_field o = .ok f) :
     ∀ x ∈ xs, ¬ excl f x → B.accepts f x :=
-  fun x hx hne => hbuilder x (hacc x hx) hf hne
+  fun x hx hne => hbuilder x (fromSamples_acc c o xs t htrace x hx) hf hne
+
+/-- non-vacuity of `C06_closure_partial`: with the trivial builder interface the hypotheses are met by a collection that
+traces successfully to a field -/
+example : ∃ t f, fromSamplesTracer .fixed {} (itemsOf [wT2, wT3]) = .ok t ∧ t.to_field {} = .ok f := by
+  have h : (fromSamplesTracer .fixed {} (itemsOf [wT2, wT3])).isOk = true := by decide +kernel
+  cases ht : fromSamplesTracer .fixed {} (itemsOf [wT2, wT3]) with
+  | error e => rw [ht] at h; cases h
+  | ok t =>
+    have h2 : (match fromSamplesTracer .fixed {} (itemsOf [wT2, wT3]) with
+      | .ok t => (t.to_field {}).isOk | .error _ => false) = true := by decide +kernel
+    rw [ht] at h2
+    simp only at h2
+    cases hf : t.to_field {} with
+    | error e => rw [hf] at h2; cases h2
+    | ok f => exact ⟨t, f, rfl, hf⟩
 
 /-! ### finding #25: tuples of different arity -/
 
